@@ -279,6 +279,14 @@ def parse(text: str) -> dict[str, MirFn]:
     i = 0
     while i < len(lines):
         ln = lines[i]
+        mc = re.match(r"^const (.+?::promoted\[\d+\]): (.+) = \{$", ln)
+        if mc:
+            # a promoted constant of a function: kept as a function without parameters (its body computes _0)
+            cur = MirFn(mc.group(1), ln)
+            fns[cur.name] = cur
+            blk = None
+            i += 1
+            continue
         m = re.match(r"^fn (.+?)\((.*)\) -> (.+) \{$", ln)
         if m:
             cur = MirFn(m.group(1), ln)
